@@ -65,6 +65,9 @@ _FMT_ITEM_RE = re.compile(r'(\d*)([bBhHlLiIqQefd])')
 INTERNAL_LIMIT = 1 << 16               # no event may produce more bits than this (apply stays cheap and total)
 
 
+OBSERVERS = ('find', 'find', 'rfind', 'findall', 'count', 'tobytes', 'interp', 'len', 'eq', 'getitem', 'slice', 'startswith', 'iter', 'all_any', 'copy', 'cut', 'str', 'unpack')
+
+
 class Exp:
     """What the specification allows for one call in the current state."""
     __slots__ = ('ok', 'rz', 'rstate', 'tag', 'frame', 'fault', 'skip')
@@ -176,7 +179,7 @@ class EMut(Engine):
                        'cache_clear', 'option:bytealigned-decided-replace', 'overwrite:extends', 'replace:overlap-skipped',
                        'replace:multi', 'byteswap:repeats>1', 'byteswap:struct-string', 'setslice:int-limit',
                        'setslice:negative-step', 'len:crosses-64', 'run:nofault', 'run:fault', 'run:avoid',
-                       'cls:BitArray', 'cls:BitStream', 'insert:from-end', 'shift:beyond-len', 'rotate:subrange', 'run:lsb0')
+                       'cls:BitArray', 'cls:BitStream', 'insert:from-end', 'shift:beyond-len', 'rotate:subrange', 'run:lsb0', 'observe')
 
     # ---------------------------------------------------------------------------------------------------
     def plan(self, tier, base_seed):
@@ -1023,9 +1026,76 @@ class EMut(Engine):
             return self._ev_cache(ev)
         if k == 'option':
             return self._ev_option(ev)
+        if k == 'observe':
+            return self._ev_observe(ev)
         if k in ('op', 'reject', 'pfault') and isinstance(ev.get('op'), str):
             return self._ev_op(ev)
         return {'skip': str(k)}, []
+
+    def _observe(self, x, ev):
+        B = self.B
+        w = ev.get('what')
+        bits = ''.join(c for c in str(ev.get('bits', '')) if c in '01')
+        pat = ('0b' + bits) if bits else ''
+        a, b, ba = ev.get('a'), ev.get('b'), ev.get('ba')
+        a = a if (a is None or _isint(a)) else None
+        b = b if (b is None or _isint(b)) else None
+        ba = ba if ba in (None, True, False) else None
+        if w == 'find':
+            return x.find(pat, a, b, ba)
+        if w == 'rfind':
+            return x.rfind(pat, a, b, ba)
+        if w == 'findall':
+            return list(x.findall(pat, a, b, None, ba))[:50]
+        if w == 'count':
+            return [x.count(1), x.count(0)]
+        if w == 'tobytes':
+            return x.tobytes()
+        if w == 'interp':
+            return [x.hex if len(x) % 4 == 0 else None, x.uint if len(x) else None, x.int if len(x) else None, x.oct if len(x) % 3 == 0 else None]
+        if w == 'len':
+            return [len(x), bool(x), x.len]
+        if w == 'eq':
+            other = B.Bits(bin=self.M) if self.M else B.Bits()
+            return [x == other, other == x, x != other, x == (other + '0b1')]
+        if w == 'getitem':
+            i = ev.get('i', 0)
+            return x[i if _isint(i) else 0]
+        if w == 'slice':
+            return x[a:b].bin
+        if w == 'startswith':
+            return [x.startswith(pat), x.endswith(pat), pat in x if pat else None]
+        if w == 'iter':
+            return [bool(v) for _, v in zip(range(300), x)]
+        if w == 'all_any':
+            return [x.all(1), x.any(1), x.all(0), x.any(0)]
+        if w == 'copy':
+            return [x.copy().bin, (x + '0b1').bin[-9:], (~x).bin[:16] if len(x) else None, (x * 2).bin[:40]]
+        if w == 'cut':
+            return [c.bin for c in x.cut(8)][:20]
+        if w == 'str':
+            return str(x)       # (repr of a stream names its pos, which C03 leaves to C06)
+        if w == 'unpack':
+            return x.unpack('bin')
+        return None
+
+    def _ev_observe(self, ev):
+        self.probe('observe')
+        fresh = self._build(self.M)
+        st1, v1 = call(self._observe, self.s, ev)
+        st2, v2 = call(self._observe, fresh, ev)
+        o1 = kernel.canon(v1) if st1 == 'ok' else {'exc': type(v1).__name__}
+        o2 = kernel.canon(v2) if st2 == 'ok' else {'exc': type(v2).__name__}
+        incs = []
+        if o1 != o2:
+            incs.append(self.inc(f'observe:{ev.get("what")}|{"lsb0" if self.lsb0 else "-"}|differs-from-a-new-object-of-the-same-bits', cls=self.cname, content=self.M[:200],
+                                 mutated_object=kernel.jdump(o1)[:300], new_object=kernel.jdump(o2)[:300], event=ev))
+            self.s = self._build(self.M)
+        got = self._bin()
+        if got != self.M:
+            incs.append(self.inc(f'observe:{ev.get("what")}|-|observer-changed-the-content', want=self.M[:200], got=got[:200]))
+            self.s = self._build(self.M)
+        return {'same': o1 == o2}, incs
 
     def _ev_cache(self, ev):
         self.R.clear_caches()
@@ -1327,6 +1397,14 @@ class EMut(Engine):
         if r < cfg['p_cache'] + cfg['p_opt']:
             return {'k': 'option', 'name': 'bytealigned', 'value': g.chance(0.5)}
         n = len(self.M)
+        if r < cfg['p_cache'] + cfg['p_opt'] + 0.12:
+            # an observer on the mutated object and on a brand-new object of the same bits: the object holds exactly that
+            # sequence for every reader, not only for .bin (nothing derived from an earlier content may survive a mutation)
+            M = self.M
+            ln = g.pick([1, 2, 3, 8, 8, 16])
+            p0 = g.int(0, max(n - ln, 0))
+            return {'k': 'observe', 'what': g.pick(OBSERVERS), 'bits': M[p0:p0 + ln] if (n and g.chance(0.7)) else g.bits(ln), 'a': g.pick([None, None, 0, g.int(0, n)]),
+                    'b': g.pick([None, None, n, g.int(0, n)]), 'ba': g.pick([None, None, True, False]), 'i': g.int(-n - 1, n)}
         for _ in range(24):
             if n > cfg['maxlen'] and g.chance(0.7):
                 op = g.pick(SHRINKERS)
